@@ -305,7 +305,7 @@ fn deviation_sweep_for(report: &Report, tier: Tier, label: &str, stakes: Vec<u64
     let base_min = base_fin.iter().flatten().copied().min().unwrap_or(0);
     // packets routed in roughly the first half of the run
     let upto = routed / 2;
-    let stride = tier.pick(23u64, 1);
+    let stride = tier.pick(31u64, 1);
     let amounts: Vec<u64> = tier.pick(vec![240, 1500], vec![100, 240, 700, 1500, 3000]);
     let jobs: Vec<(u64, u64)> = (0..upto).step_by(stride as usize).flat_map(|k| amounts.iter().map(move |a| (k, *a))).collect();
     let outcomes: Vec<(u64, u64, u64)> = jobs
@@ -500,12 +500,16 @@ fn run_liveness_prefixes(report: &Report, tier: Tier) -> (Value, usize, usize, u
     let mut per = Vec::new();
     let (mut tot_states, mut tot_trans, mut tot_compl) = (0usize, 0usize, 0usize);
     let mut traces: Vec<Value> = Vec::new();
-    for (inner, depth) in systems.into_iter().zip(depths) {
+    // the lagging-node system (index 0) replays a long start-state prefix for every expansion; it runs
+    // last, when the whole-node parts of the check have released the cores
+    let mut order: Vec<(crate::cluster::ClusterSys, usize)> = systems.into_iter().zip(depths).collect();
+    order.rotate_left(1);
+    for (inner, depth) in order {
         let name = inner.name.clone();
         let stakes = inner.epoch.stakes.clone();
         let nodes = inner.nodes.clone();
         let sys = LiveSys::new(inner);
-        let limits = BfsLimits::new(depth, tier.pick(1_000_000, 20_000_000), tier.pick(40, 200));
+        let limits = BfsLimits::new(depth, tier.pick(1_000_000, 20_000_000), tier.pick(60, 200));
         let st = bfs(&sys, &name, &limits, report);
         let completions = sys.completions.load(std::sync::atomic::Ordering::Relaxed);
         let shapes: Vec<String> = sys.shapes.lock().unwrap().iter().cloned().collect();
@@ -602,8 +606,10 @@ fn run_obligations(report: &Report, tier: Tier) -> Value {
         }
     }
     systems.push(NodeSys::new("slots1-2-parent-rule", x3.clone(), 0, crate::c05::alpha_slots12(), 0));
-    systems.push(NodeSys::new("window-boundary-3-4-5", x3.clone(), 0, crate::c05::alpha_boundary(), 0));
-    {
+    if tier == Tier::Thorough {
+        systems.push(NodeSys::new("window-boundary-3-4-5", x3.clone(), 0, crate::c05::alpha_boundary(), 0));
+    }
+    if tier == Tier::Thorough {
         let alpha = crate::c05::alpha_handover();
         let first_block = alpha.foreign.len() as u16;
         let mut hs = NodeSys::new("handover-after-notarizing-window-0", x3.clone(), 0, alpha, 0);
@@ -617,7 +623,9 @@ fn run_obligations(report: &Report, tier: Tier) -> Value {
         // the prefix must have produced the intended start state
         let _ = sys.init();
         let depth = if sys.name.starts_with("stale") { tier.pick(6, 9) } else { tier.pick(4, 7) };
-        let limits = BfsLimits::new(depth, tier.pick(300_000, 20_000_000), tier.pick(10, 150));
+        // the wall budget is a safety net only: the quick depth bounds complete in a few seconds, but
+        // this part shares the cores with the other parts of the check
+        let limits = BfsLimits::new(depth, tier.pick(300_000, 20_000_000), tier.pick(45, 150));
         let st = bfs(&*sys, &sys.name, &limits, report);
         println!("  obligations/{}: states={} transitions={} depth_completed={} outcomes={} capped={:?}", sys.name, st.states, st.transitions, st.depth_completed, st.distinct_outcomes, st.capped);
         let mut j = st.to_json();
@@ -739,7 +747,7 @@ pub fn run(tier: Tier) -> i32 {
         "single_node_vote_obligations": obligations,
         "slow_path_loss_and_recovery_runs": slow_path_loss,
         "whole_node_deviation_sweep": deviation,
-        "whole_node_deviation_rule": "4 real nodes on a timely network; the default schedule delivers every packet after 1 ms, a deviation delays the k-th routed consensus packet of the run by one of the listed amounts; every k in the first half of the run (quick: every 23rd) x every amount is executed; the run must keep finalizing (within one window per 1.6 s of delay of the undisturbed run), no task may die, and a delay below DELTA must not get any slot skipped",
+        "whole_node_deviation_rule": "4 real nodes on a timely network; the default schedule delivers every packet after 1 ms, a deviation delays the k-th routed consensus packet of the run by one of the listed amounts; every k in the first half of the run (quick: every 31st) x every amount is executed; the run must keep finalizing (within one window per 1.6 s of delay of the undisturbed run), no task may die, and a delay below DELTA must not get any slot skipped",
         "byzantine_previous_leader_handover_runs": handover_runs,
         "liveness_rule": "every state reached by the breadth-first exploration of schedule prefixes of 3 real node cores (real Votor + Pool each; Byzantine votes to single nodes, adversary-aggregated certificates, per-link FIFO deliveries incl. loop-back in every interleaving, blocks to single nodes, timeouts) is rebuilt and completed fairly (everything in flight delivered, held blocks repaired to the others, timeouts fired when nothing is in flight, Byzantine validator silent); on the completed world every slot of the window must be certified (skip or notarization/-fallback) or finalized at every node and the next window must have a ready parent",
         "samples": all_samples,
